@@ -20,6 +20,7 @@ pub struct RecorderOnceCell {
     state: AtomicUsize,
 }
 
+#[cfg_attr(metrics_verif, allow(missing_docs))]
 impl RecorderOnceCell {
     /// Creates an uninitialized `RecorderOnceCell`.
     pub const fn new() -> Self {
@@ -32,6 +33,8 @@ impl RecorderOnceCell {
     {
         // Try and transition the cell from `UNINITIALIZED` to `INITIALIZING`, which would give
         // us exclusive access to set the recorder.
+        #[cfg(metrics_verif)]
+        crate::__verif::yield_point(201);
         match self.state.compare_exchange(
             UNINITIALIZED,
             INITIALIZING,
@@ -39,6 +42,8 @@ impl RecorderOnceCell {
             Ordering::Relaxed,
         ) {
             Ok(UNINITIALIZED) => {
+                #[cfg(metrics_verif)]
+                crate::__verif::yield_point(202);
                 unsafe {
                     // SAFETY: Access is unique because we can only be here if we won the race
                     // to transition from `UNINITIALIZED` to `INITIALIZING` above.
@@ -46,6 +51,8 @@ impl RecorderOnceCell {
                 }
 
                 // Mark the recorder as initialized, which will make it visible to readers.
+                #[cfg(metrics_verif)]
+                crate::__verif::yield_point(203);
                 self.state.store(INITIALIZED, Ordering::Release);
                 Ok(())
             }
@@ -54,11 +61,15 @@ impl RecorderOnceCell {
     }
 
     pub fn try_load(&self) -> Option<&'static dyn Recorder> {
+        #[cfg(metrics_verif)]
+        crate::__verif::yield_point(204);
         if self.state.load(Ordering::Acquire) != INITIALIZED {
             None
         } else {
             // SAFETY: If the state is `INITIALIZED`, then we know that the recorder has been
             // installed and is safe to read.
+            #[cfg(metrics_verif)]
+            crate::__verif::yield_point(205);
             unsafe { self.recorder.get().read() }
         }
     }
